@@ -37,7 +37,7 @@ info_st = st.one_of(
                      "50% off", "100%% sure", "%(subtype)s", "{}", "info\x0bwith\x0cseparators", "info\xe2\x80\xa8line separator", "x\x1cy\x1dz", "nel\xc2\x85here"]),
 ).filter(lambda s: not s.strip().startswith("=>") and not s.strip().startswith("=:"))
 seg = st.text("abcdefghijk0123", min_size=1, max_size=5)
-TYPES = list("0145679ghIsMi")
+TYPES = list("01345679ghIsMiT8+2")
 
 
 @st.composite
